@@ -1656,7 +1656,7 @@ def rule_topdir_test(rep: Report, repo: Repo, rule: str) -> None:
     rep.floor(rule, 1, "top-directory comparisons")
 
 
-def rule_recursion_switch(rep: Report, repo: Repo, rule: str) -> None:
+def rule_recursion_switch(rep: Report, repo: Repo, rule: str, empty_top_clause: bool = False) -> None:
     rep.rule(rule, "the walk stops after the first directory unless `recursive`; the break is the last statement of the loop body")
     dm = DocumentModel(repo)
     where = f"{MOD}:document"
@@ -1679,6 +1679,28 @@ def rule_recursion_switch(rep: Report, repo: Repo, rule: str) -> None:
                 auto = any("auto_exclude_directories_without_cmake" in norm(g.test) and g.polarity for g in gs)
                 rep.check(auto, rule, where, "continue in walk loop",
                           "a `continue` skips the recursion cut-off outside the auto-exclusion block")
+                if not empty_top_clause:
+                    continue        # (C13/C14 quantify over input directories that hold a .cmake file themselves)
+                # ... and even there it must not carry a non-recursive run past the cut-off: either the continue is only
+                # reached when recursing, or the cut-off is repeated right in front of it
+                from ..model import guard_atoms
+                atoms = guard_atoms(gs)
+                recursing = any((t in flags and pol) for t, pol in atoms)
+                blk = None
+                par = dm.parents.get(n)
+                for field in ("body", "orelse", "finalbody"):
+                    b = getattr(par, field, None)
+                    if isinstance(b, list) and any(x is n for x in b):
+                        blk = b
+                prev = blk[[i for i, x in enumerate(blk) if x is n][0] - 1] if blk and blk[0] is not n else None
+                cut = isinstance(prev, ast.If) and not prev.orelse and len(prev.body) == 1 and isinstance(prev.body[0], ast.Break) \
+                    and any(norm(prev.test) in (f"not {f}", f"{f} is False", f"{f} == False") for f in flags)
+                rep.check(recursing or cut, rule, where, "continue in walk loop respects the recursion switch",
+                          "when the directory is skipped for having no CMake file, the `continue` also skips `if not recursive: break`: a "
+                          "run without -r goes on into the sub-directories of an input directory that holds no .cmake file itself, "
+                          "documents the first one that has some and stops - which one that is depends on the directory listing order",
+                          witness="cminx -o out dir   (no -r) with dir/a/a.cmake and dir/b/b.cmake, no .cmake file in dir itself",
+                          key=f"{rule}|continue-skips-cutoff")
     rep.floor(rule, 1, "recursion cut-off")
 
 
